@@ -132,8 +132,8 @@ HARNESSES = [
     R.H("split_tiles", ["hed.models.hed_string.HedString.split_hed_string"],
         quick=R.tier(cells=R.str_cells(5, split1_from=5), env={"VP_N": 5}, timeout=120,
                      bound="every Unicode string s with len(s) <= 5"),
-        thorough=R.tier(cells=R.str_cells(8, split1_from=4, split2_from=7), env={"VP_N": 8}, timeout=900,
-                        bound="every Unicode string s with len(s) <= 8"),
+        thorough=R.tier(cells=R.str_cells(7, split1_from=4, split2_from=6), env={"VP_N": 7}, timeout=900,
+                        bound="every Unicode string s with len(s) <= 7 (len 8 did not exhaust in 1500 CPU-s per cell)"),
         what="the tokenizer's spans tile the string; tag spans are trimmed, non-empty and delimiter-free; "
              "delimiter spans hold only ',() '",
         oracle="inline tiling predicate", outside="strings longer than the bound"),
